@@ -340,12 +340,6 @@ func (cr *checkRun) report(verif, evPath string, seed int, t0 time.Time, writeBa
 	fnDis := map[string]int{}
 	seen := map[string]bool{}
 	var otherProps []string
-	unboundFns := map[string]bool{}
-	for _, fr := range cr.fns {
-		if len(fr.Unbound) > 0 {
-			unboundFns[fr.Func] = true
-		}
-	}
 	for _, o := range cr.obs {
 		seen[o.Name] = true
 		solverSecs += o.Secs
@@ -366,12 +360,6 @@ func (cr *checkRun) report(verif, evPath string, seed int, t0 time.Time, writeBa
 			// an obligation that belongs to other properties of the same function: their checks
 			// report it; it is not an alarm for this property
 			otherProps = append(otherProps, o.Name)
-			continue
-		}
-		if unboundFns[o.Fn] && !(o.Status == "refuted" && o.Replayed) {
-			// the contract of this function no longer binds to its code (a clause names something
-			// the code does not have, e.g. after a rename): nothing about it is decided either way
-			cr.undecided = append(cr.undecided, fmt.Sprintf("UNDECIDED %s: %s (the function's contract has clauses that do not bind to the current code)", o.Name, o.Status))
 			continue
 		}
 		switch {
